@@ -46,6 +46,7 @@ class Net(object):
         self.delivered = 0
         self.oracle = oracle
         self.id_mid_frame = 0
+        self.coalesce = False
 
     def on_connect(self, sock):
         if self.zmq_ids:
@@ -54,6 +55,12 @@ class Net(object):
 
     def deliver(self, piece):
         self.delivered += len(piece)
+        if self.coalesce and self.inq and not self.inq[-1][1] and self.inq[-1][0] and len(self.inq[-1][0]) + len(piece) <= 8192:
+            # the reader is behind: libzmq hands over what accumulated in the
+            # kernel buffer as one message (its in-batch size is 8192 bytes)
+            self.inq[-1] = (self.inq[-1][0] + piece, False)
+            self.k.count("fault.tcp_coalesced_reads")
+            return
         if self.zmq_ids:
             self.inq.append((ROUTING_ID, True))
         self.inq.append((piece, False))
@@ -76,10 +83,13 @@ class Oracle(object):
         self.exp_adsb = []     # (msg as handed, ts)
         self.exp_commb = []
         self.flush_marks = []  # (n_adsb_expected, n_commb_expected) at each handle_messages return
+        self.on_violation = None
 
     def vio(self, clause, detail):
         if len(self.violations) < 4:
             self.violations.append({"clause": clause, "detail": detail})
+        if self.on_violation is not None:
+            self.on_violation()
 
     def on_handed(self, messages, net):
         exp = self.st.expect
@@ -263,7 +273,7 @@ def generate(run_seed, tier):
             tape[str(i)] = rs.randrange(1, 4)
     return {"rig": NAME, "prop": PROP, "fmt": fmt, "frames": frames, "deliveries": deliveries, "zmq_ids": zmq_ids,
             "pipe_cap": pipe_cap, "sink_stalls": sink_stalls, "source_stalls": source_stalls, "tape": tape,
-            "cpu_us": rs.choice([0, 1, 50]), "group": ("bulk-" if bulk else "") + ("ids" if zmq_ids else "noids")}
+            "cpu_us": rs.choice([0, 1, 50]), "coalesce": rf_.random() < 0.5, "group": ("bulk-" if bulk else "") + ("ids" if zmq_ids else "noids")}
 
 
 # ---------------------------------------------------------------------------
@@ -280,7 +290,9 @@ def execute(sc, keep_log=False):
     cap = 4000 + 30 * npieces + 14 * len(sc["frames"])
     k = Kernel(tape=sc.get("tape"), step_cap=cap, t_end_us=None, cpu_us=sc.get("cpu_us", 0), keep_log=keep_log)
     oracle = Oracle(st)
+    oracle.on_violation = lambda: k._begin_stop("violation")
     net = Net(k, sc.get("zmq_ids", True), oracle)
+    net.coalesce = bool(sc.get("coalesce", False))
     fz = FakeZmqModule(k, net)
     ft = FakeTime(k)
     tc.zmq = fz
